@@ -407,6 +407,92 @@ pub mod bad {
         }
         crate::harness_error("no non-subgroup G2 point found")
     }
+    fn hex_be(h: &str) -> Vec<u8> {
+        let h = if h.len() % 2 == 1 { format!("0{}", h) } else { h.to_string() };
+        (0..h.len() / 2).map(|i| u8::from_str_radix(&h[2 * i..2 * i + 2], 16).unwrap()).collect()
+    }
+    /// Double-and-add with a big-endian integer (the points need not lie in the subgroup).
+    fn mul_be_g1(p: &G1Projective, k: &[u8]) -> G1Projective {
+        let mut acc = G1Projective::identity();
+        for byte in k {
+            for bit in (0..8).rev() {
+                acc = acc.double();
+                if (byte >> bit) & 1 == 1 {
+                    acc += p;
+                }
+            }
+        }
+        acc
+    }
+    fn mul_be_g2(p: &G2Projective, k: &[u8]) -> G2Projective {
+        let mut acc = G2Projective::identity();
+        for byte in k {
+            for bit in (0..8).rev() {
+                acc = acc.double();
+                if (byte >> bit) & 1 == 1 {
+                    acc += p;
+                }
+            }
+        }
+        acc
+    }
+    const Q_HEX: &str = "73eda753299d7d483339d80809a1d80553bda402fffe5bfeffffffff00000001";
+    /// A point of order 3 on the G1 curve (the G1 cofactor is divisible by 3): [q * h1/3] R.
+    pub fn g1_torsion3() -> G1Projective {
+        use std::sync::OnceLock;
+        static T: OnceLock<G1Projective> = OnceLock::new();
+        *T.get_or_init(|| {
+            let h1_3 = hex_be("13242eaac71ca0722eaae38e55558e39");
+            let q = hex_be(Q_HEX);
+            for k in 1u8..=255 {
+                let mut b = [0u8; 48];
+                b[47] = k;
+                b[0] = 0x80;
+                let p: Option<G1Affine> = G1Affine::from_compressed_unchecked(&b).into();
+                if let Some(p) = p {
+                    let t = mul_be_g1(&mul_be_g1(&G1Projective::from(p), &h1_3), &q);
+                    if !bool::from(t.is_identity()) {
+                        if !bool::from((t + t + t).is_identity()) {
+                            crate::harness_error("g1_torsion3: point is not of order 3");
+                        }
+                        return t;
+                    }
+                }
+            }
+            crate::harness_error("no order-3 G1 point found")
+        })
+    }
+    /// A point of order 13 on the G2 curve (the G2 cofactor is divisible by 13): [q * h2/13] R.
+    pub fn g2_torsion13() -> G2Projective {
+        use std::sync::OnceLock;
+        static T: OnceLock<G2Projective> = OnceLock::new();
+        *T.get_or_init(|| {
+            // 13^2 divides the cofactor: project onto the 13-part, then reduce to order exactly 13
+            let h2_169 = hex_be("8d5fc7522f6c4d5a3c5663541d68b60a5f9bdc250555d81be2a9b0c6483045a5b213dcb71085945e0aef29c5e8629edf4046db800a8373336b3150941cfdd");
+            let q = hex_be(Q_HEX);
+            for k in 1u8..=255 {
+                let mut b = [0u8; 96];
+                b[95] = k;
+                b[0] = 0x80;
+                let p: Option<G2Affine> = G2Affine::from_compressed_unchecked(&b).into();
+                if let Some(p) = p {
+                    let mut t = mul_be_g2(&mul_be_g2(&G2Projective::from(p), &h2_169), &q);
+                    if bool::from(t.is_identity()) {
+                        continue;
+                    }
+                    for _ in 0..2 {
+                        let t13 = mul_be_g2(&t, &[13]);
+                        if bool::from(t13.is_identity()) {
+                            return t;
+                        }
+                        t = t13;
+                    }
+                    crate::harness_error("g2_torsion13: 13-part of the curve group is larger than 13^2");
+                }
+            }
+            crate::harness_error("no order-13 G2 point found")
+        })
+    }
     /// q (the scalar field modulus), little-endian: smallest non-canonical scalar encoding.
     pub fn scalar_q() -> [u8; 32] {
         // q - 1 is canonical; add one in little-endian.
